@@ -581,7 +581,7 @@ class IterativeIASolverBaseClass(IASolverBaseClass):
             # The second variable returned by least_right_singular_vectors
             # has the corresponds to the most significant singular
             # vectors.
-            _, V1, _ = least_right_singular_vectors(Hkk, self.Nr[k] - Ns[k])
+            _, V1, _ = least_right_singular_vectors(Hkk, self.Nt[k] - Ns[k])
             self._F[k] = V1 / np.linalg.norm(V1, 'fro')
 
         # Method called before the _updateW method
